@@ -28,9 +28,9 @@ type arg struct {
 	Members []int   `json:"members,omitempty"` // object document given as indexes into the member alphabet (streamed phases); Doc is then derived
 	Rule    int     `json:"rule"`
 	Max     int     `json:"max_object_keys"`
-	Prev    *mc.Bin `json:"previous_call,omitempty"` // history of depth 2: parsed first (same rule), on the buffer that is then reused
+	Prev    *mc.Bin `json:"previous_call,omitempty"`    // history of depth 2: parsed first (same rule), on the buffer that is then reused
 	MaxLen  *int    `json:"max_input_length,omitempty"` // nil = default 128
-	Via     int     `json:"previous_via,omitempty"`  // the single previous call: 0 DefaultParser[[]byte] on the shared buffer, 1 DefaultParser[string], 2 UnmarshalJSON on the shared buffer
+	Via     int     `json:"previous_via,omitempty"`     // the single previous call: 0 DefaultParser[[]byte] on the shared buffer, 1 DefaultParser[string], 2 UnmarshalJSON on the shared buffer
 }
 
 var curMaxLen = 128
@@ -443,6 +443,15 @@ func probe(a arg) (string, string) {
 		g    size.Size
 		e    error
 	}
+	// named string / byte-slice input types behave like the plain ones
+	{
+		type namedS string
+		nv, ne := size.DefaultParser(namedS(doc), size.Rule(a.Rule))
+		bv, be := size.DefaultParser(json.RawMessage(doc), size.Rule(a.Rule))
+		if nv != g1 || bv != g1 || (ne == nil) != (e1 == nil) || (be == nil) != (e1 == nil) {
+			return "named_type_differs", fmt.Sprintf("DefaultParser(%s, rule=%d): plain string %d,%v named string %d,%v json.RawMessage %d,%v", doc, a.Rule, uint64(g1), e1, uint64(nv), ne, uint64(bv), be)
+		}
+	}
 	rs := []res{{"DefaultParser[string]", g1, e1}, {"DefaultParser[[]byte]", g2, e2}}
 	if a.Rule&6 != 0 {
 		var u size.Size = 4242
@@ -495,7 +504,7 @@ func probe(a arg) (string, string) {
 // the same document twice, configuration changed in between
 type cfgArg struct {
 	Doc    mc.Bin `json:"doc"`
-	First  [3]int `json:"first_config"`  // rule, MaxObjectKeys, MaxInputLength
+	First  [3]int `json:"first_config"` // rule, MaxObjectKeys, MaxInputLength
 	Second [3]int `json:"second_config"`
 }
 
